@@ -31,11 +31,23 @@ def near(x):
 
 
 # ------------------------------------------------------------------ sources and labelled point sets
+GEOM = {"Cuboid": (1.0, 1.2, 0.8), "Cuboid-flat": (2.0, 0.1, 1.0), "Cuboid-long": (0.2, 0.2, 3.0), "Cuboid-zero-polarization": (1.0, 1.2, 0.8),
+        "Cylinder": (1.0, 1.2), "Cylinder-flat": (2.0, 0.1), "Cylinder-long": (0.3, 3.0), "Cylinder-zero-polarization": (1.0, 1.2),
+        "Cylinder-axial": (1.0, 1.2), "Cylinder-diametral": (1.0, 1.2)}
+
+
 def sources():
     import magpylib as magpy
 
     pol = (0.2, -0.3, 0.9)
     S = {}
+    for nm in ("Cuboid-flat", "Cuboid-long"):
+        S[nm] = lambda nm=nm, **kw: magpy.magnet.Cuboid(dimension=GEOM[nm], polarization=pol, **kw)
+    for nm in ("Cylinder-flat", "Cylinder-long"):
+        S[nm] = lambda nm=nm, **kw: magpy.magnet.Cylinder(dimension=GEOM[nm], polarization=pol, **kw)
+    # purely axial / purely diametral polarization: only one of the two cylinder formulas is evaluated
+    S["Cylinder-axial"] = lambda **kw: magpy.magnet.Cylinder(dimension=GEOM["Cylinder"], polarization=(0, 0, 0.7), **kw)
+    S["Cylinder-diametral"] = lambda **kw: magpy.magnet.Cylinder(dimension=GEOM["Cylinder"], polarization=(0.4, -0.6, 0), **kw)
     S["Cuboid"] = lambda **kw: magpy.magnet.Cuboid(dimension=(1.0, 1.2, 0.8), polarization=pol, **kw)
     S["Cylinder"] = lambda **kw: magpy.magnet.Cylinder(dimension=(1.0, 1.2), polarization=pol, **kw)
     S["CylinderSegment"] = lambda **kw: magpy.magnet.CylinderSegment(dimension=(0.3, 0.9, 1.1, -30, 200), polarization=pol, **kw)
@@ -67,7 +79,7 @@ def point_sets(name):
     far = [1e3, 1e6, 1e9, 1e12]
     base = name.split("-")[0].replace("Wedge", "").replace("Full", "")
     if base == "Cuboid":
-        a, b, c = 0.5, 0.6, 0.4
+        a, b, c = (np.array(GEOM[name]) / 2).tolist()
         xs, ys, zs = near(a) + near(-a), near(b) + near(-b), near(c) + near(-c)
         out.append(("corner-lattice", np.array([(x, y, z) for x in xs for y in ys for z in zs]), False))
         out.append(("edge-lattice", np.array([(x, y, z) for x in xs for y in ys for z in (0.0, 0.1, c / 2, 2 * c, -3 * c)]), False))
@@ -80,7 +92,7 @@ def point_sets(name):
         out.append(("centre-tiny", np.array([(t, u, 0.0) for t in tiny for u in tiny]), False))
         out.append(("far", np.array([(f * a, 0.3 * f, -f) for f in far] + [(f, 0, 0) for f in far] + [(a, b, f) for f in far]), False))
     elif base == "Cylinder":
-        r0, z0 = 0.5, 0.6
+        r0, z0 = (np.array(GEOM[name]) / 2).tolist()
         rs, zs = near(r0), near(z0) + near(-z0)
         phis = [0.0, 0.7, np.pi / 2, np.pi, -2.1]
         out.append(("rim-lattice", np.array([(r * np.cos(p), r * np.sin(p), z) for r in rs for z in zs for p in phis]), False))
